@@ -38,6 +38,10 @@ type Runner struct {
 	e       *Env
 	envDesc string
 	nmsg    int
+	outbound bool          // next peer is an outbound one (we dialled it)
+	settle  time.Duration // extra wait at the end of a session for asynchronous event loops
+	a0      uint64
+	recent  [][]wmsg // the last sessions (witness of delayed effects)
 	broken  bool // the environment can no longer be used (dead node, hung call, leaked mutex)
 }
 
@@ -112,7 +116,7 @@ func (rn *Runner) call(what, reactor, kind string, wit func() interface{}, fn fu
 				p = true
 				st := string(debug.Stack())
 				rn.run.Count("receive_panics", 1)
-				rn.c.Violation("panic:"+reactor+":"+kind+":"+core.PanicKey(st), fmt.Sprintf("%s: panic: %v", what, short(fmt.Sprint(e), 300)),
+				rn.c.Violation("panic:"+reactor+":"+kind+":"+frameKey(st), fmt.Sprintf("%s: panic: %v", what, short(fmt.Sprint(e), 300)),
 					map[string]interface{}{"input": wit(), "stack": firstLines(st, 36)})
 			}
 			done <- p
@@ -137,7 +141,7 @@ func firstLines(s string, n int) string {
 
 func (rn *Runner) hang(what, reactor, kind, marker string, wit interface{}) {
 	st := goroutineOf(marker)
-	frame := core.PanicKey(st)
+	frame := frameKey(st)
 	rn.broken = true
 	if frame == "unknown-frame" {
 		rn.run.Inconclusive(fmt.Sprintf("%s did not return within %v but no goroutine is inside go-kardia code", what, hangAfter))
@@ -146,31 +150,45 @@ func (rn *Runner) hang(what, reactor, kind, marker string, wit interface{}) {
 	rn.c.Violation("hang:"+reactor+":"+kind+":"+frame, fmt.Sprintf("%s has not returned after %v", what, hangAfter), map[string]interface{}{"input": wit, "goroutine": firstLines(st, 40)})
 }
 
-// Session connects a fresh peer, delivers the messages in order and checks the
-// node afterwards. Returns false when the environment must be rebuilt.
-func (rn *Runner) Session(variant string, sess []Msg) bool {
+// begin connects a fresh peer through the switch.
+func (rn *Runner) begin(variant string, sess []Msg) *StubPeer {
 	e := rn.e
 	if rn.broken {
-		return false
+		return nil
 	}
 	rn.resetChildLog(variant, sess)
 	atomic.StoreInt32(&formatLogs, 1)
-	defer atomic.StoreInt32(&formatLogs, 0)
 	var peer *StubPeer
-	ret, pan := rn.call("AddPeer", "switch", "AddPeer", func() interface{} { return rn.envDesc }, func() { peer = e.AddPeer(len(sess)%2 == 0) })
+	ret, pan := rn.call("AddPeer", "switch", "AddPeer", func() interface{} { return rn.envDesc }, func() { peer = e.AddPeer(rn.outbound) })
 	if !ret {
 		rn.hang("AddPeer", "switch", "AddPeer", "c18.(*Env).AddPeer", rn.envDesc)
-		return false
+		return nil
 	}
 	if pan || peer == nil {
 		rn.broken = true
-		return false
+		return nil
 	}
 	rn.run.Count("sessions", 1)
-	a0 := heapAllocs()
-	total := 0
+	rn.a0 = heapAllocs()
+	if len(sess) > 0 {
+		rn.recent = append(rn.recent, witnessMsgs(sess))
+		if len(rn.recent) > 6 {
+			rn.recent = rn.recent[1:]
+		}
+	}
+	return peer
+}
+
+// Session connects a fresh peer, delivers the messages in order and checks the
+// node afterwards. Returns false when the environment must be rebuilt.
+func (rn *Runner) Session(variant string, sess []Msg) bool {
+	defer atomic.StoreInt32(&formatLogs, 0)
+	peer := rn.begin(variant, sess)
+	if peer == nil {
+		return false
+	}
 	last := -1
-	for i, m := range sess {
+	for i := range sess {
 		if !peer.BaseService.IsRunning() {
 			rn.run.Count("messages_skipped_peer_already_stopped", len(sess)-i)
 			break
@@ -179,23 +197,33 @@ func (rn *Runner) Session(variant string, sess []Msg) bool {
 		if !rn.deliver(peer, variant, sess, i) {
 			return false
 		}
-		total += len(m.Bytes)
-		_ = m
 	}
+	return rn.finish(peer, variant, sess, last)
+}
+
+// finish applies the end-of-session checks and disconnects the peer.
+func (rn *Runner) finish(peer *StubPeer, variant string, sess []Msg, last int) bool {
+	e := rn.e
 	if last < 0 {
+		e.DropPeer(peer)
 		return true
 	}
+	total := 0
 	subj := sess[last]
 	for _, m := range sess[:last+1] {
+		total += len(m.Bytes)
 		if m.Subject {
 			subj = m
 		}
 	}
 	reactor := reactorName(e, subj.Ch)
+	if rn.settle > 0 {
+		time.Sleep(rn.settle) // event loops of the block-sync / transaction fetcher work asynchronously
+	}
 	// effects that surface later: gossip goroutines working on the peer state this peer shaped
 	if w := e.WaitGossip(peer, 2); w != "" {
 		st := goroutineOf("consensus.(*ConsensusManager)." + w)
-		frame := core.PanicKey(st)
+		frame := frameKey(st)
 		if st == "" {
 			// the goroutine is gone although peer and reactor are running: it can only have ended by a
 			// panic, which would have ended the process; report as inconclusive if we get here at all
@@ -210,7 +238,7 @@ func (rn *Runner) Session(variant string, sess []Msg) bool {
 	}
 	rn.run.Count("gossip_waits", 1)
 	// allocation over the whole session (Receive calls, consensus loop, gossip iterations)
-	if d := heapAllocs() - a0; d > uint64(allocConst+allocFactor*total) {
+	if d := heapAllocs() - rn.a0; d > uint64(allocConst+allocFactor*total) {
 		rn.c.Violation("alloc:"+reactor+":"+subj.Kind, fmt.Sprintf("session of %d message bytes made the node allocate %d bytes (bound %d*len+%d)", total, d, allocFactor, allocConst),
 			rn.witness(variant, sess, last, nil))
 	}
@@ -243,7 +271,7 @@ func (rn *Runner) Session(variant string, sess []Msg) bool {
 		rn.run.Count("messages_sent_to_peer", n)
 	}
 	// disconnect (RemovePeer of every reactor)
-	ret, _ = rn.call("RemovePeer", reactor, subj.Kind, func() interface{} { return rn.witness(variant, sess, last, nil) }, func() { e.DropPeer(peer) })
+	ret, _ := rn.call("RemovePeer", reactor, subj.Kind, func() interface{} { return rn.witness(variant, sess, last, nil) }, func() { e.DropPeer(peer) })
 	if !ret {
 		rn.hang("RemovePeer after the session", reactor, subj.Kind, "c18.(*Env).DropPeer", rn.witness(variant, sess, last, nil))
 		return false
@@ -279,8 +307,13 @@ func (rn *Runner) deliver(peer *StubPeer, variant string, sess []Msg, i int) boo
 		rn.hang("Receive("+rname+" "+m.Kind+")", rname, m.Kind, "c18.(*Runner).deliver.func", wit())
 		return false
 	}
-	if d := heapAllocs() - a0; d > uint64(allocConst+allocFactor*len(m.Bytes)) {
-		rn.c.Violation("alloc:"+rname+":"+m.Kind, fmt.Sprintf("Receive of a %d-byte message allocated %d bytes (bound %d*len+%d)", len(m.Bytes), d, allocFactor, allocConst), wit())
+	// (event loops may still be working on the earlier messages of the session: the bound counts their bytes too)
+	sofar := 0
+	for _, x := range sess[:i+1] {
+		sofar += len(x.Bytes)
+	}
+	if d := heapAllocs() - a0; d > uint64(allocConst+allocFactor*sofar) {
+		rn.c.Violation("alloc:"+rname+":"+m.Kind, fmt.Sprintf("Receive of a %d-byte message (session so far: %d bytes) allocated %d bytes (bound %d*len+%d)", len(m.Bytes), sofar, d, allocFactor, allocConst), wit())
 	}
 	if pan {
 		// MConnection.recvRoutine would recover this panic and stop the peer; continue with a fresh peer
@@ -290,6 +323,7 @@ func (rn *Runner) deliver(peer *StubPeer, variant string, sess []Msg, i int) boo
 	if rname == "consensus" && e.Mode == "syncing" && (m.Ch == consensus.DataChannel || m.Ch == consensus.VoteChannel) {
 		e.queued++
 		if e.queued > 900 {
+			rn.run.Count("rebuilds_because_syncing_node_queue_nearly_full", 1)
 			rn.broken = true // calibration: nobody drains the consensus queue (capacity 1000) before the switch to consensus
 		}
 	}
@@ -300,8 +334,16 @@ func (rn *Runner) deliver(peer *StubPeer, variant string, sess []Msg, i int) boo
 			return false
 		}
 	}
-	if peer.Stopped() && m.Level == "valid" {
-		rn.run.Count("valid_messages_that_stopped_the_peer:"+m.Kind, 1)
+	if peer.Stopped() {
+		why := capture.lastStop()
+		if m.Level == "valid" {
+			rn.run.Count("wellformed_messages_refused_in_context:"+m.Kind, 1)
+			rn.run.Distinct("refusal_of_wellformed", rname+":"+m.Kind+": "+classify(why))
+			if os.Getenv("C18_DEBUG") != "" {
+				fmt.Fprintln(os.Stderr, "REFUSED", rname, m.Kind, m.Mut, "|", short(why, 300), "|", rn.envDesc)
+			}
+		}
+		rn.run.Distinct("stop_reason", rname+": "+classify(why))
 	}
 	if !peer.Stopped() {
 		rn.run.Count("messages_accepted", 1)
@@ -323,13 +365,13 @@ func (rn *Runner) dead(variant string, sess []Msg, i int, rname, kind string) {
 	fs := capture.takeFailures()
 	frame, errs, stack := "no-failure-record", e.V.DeadWhy, ""
 	if len(fs) > 0 {
-		frame = core.PanicKey(skipToPanic(fs[0].Stack))
+		frame = frameKey(skipToPanic(fs[0].Stack))
 		errs = fs[0].Err
 		stack = firstLines(skipToPanic(fs[0].Stack), 30)
 	}
 	if strings.HasPrefix(e.V.DeadWhy, "watchdog") {
 		st := goroutineOf("consensus.(*ConsensusState).receiveRoutine")
-		rn.c.Violation("hang:"+rname+":"+kind+":"+core.PanicKey(st), "consensus loop blocked: "+e.V.DeadWhy, rn.witness(variant, sess, i, map[string]interface{}{"goroutine": firstLines(st, 40)}))
+		rn.c.Violation("hang:"+rname+":"+kind+":"+frameKey(st), "consensus loop blocked: "+e.V.DeadWhy, rn.witness(variant, sess, i, map[string]interface{}{"goroutine": firstLines(st, 40)}))
 		return
 	}
 	w := rn.witness(variant, sess, i, map[string]interface{}{"consensus_failure": short(errs, 400), "stack": stack})
@@ -343,7 +385,7 @@ func (rn *Runner) dead(variant string, sess []Msg, i int, rname, kind string) {
 	func() {
 		defer func() {
 			if r := recover(); r != nil {
-				startErr = fmt.Sprintf("panic: %v at %s", short(fmt.Sprint(r), 200), core.PanicKey(string(debug.Stack())))
+				startErr = fmt.Sprintf("panic: %v at %s", short(fmt.Sprint(r), 200), frameKey(string(debug.Stack())))
 			}
 		}()
 		e.V.Stop(false)
@@ -357,12 +399,28 @@ func (rn *Runner) dead(variant string, sess []Msg, i int, rname, kind string) {
 			startErr = "start: " + err.Error()
 		}
 		n2.Stop(false)
+		func() { defer func() { recover() }(); n2.WAL.Stop() }()
 	}()
 	rn.run.Count("restarts_after_failure", 1)
 	if startErr != "" {
 		w["restart_error"] = startErr
 		rn.c.Violation("restart-poisoned:"+rname+":"+kind+":"+frame, "after the consensus failure the node cannot be restarted on its database and WAL: "+startErr, w)
 	}
+}
+
+// frameKey is core.PanicKey (innermost go-kardia frame) except that the generic
+// "panic helper" frames are skipped, so that the key names the function that panicked.
+func frameKey(stack string) string {
+	var keep []string
+	lines := strings.Split(stack, "\n")
+	for i := 0; i < len(lines); i++ {
+		if strings.Contains(lines[i], "lib/common.PanicSanity") || strings.Contains(lines[i], "lib/common.PanicCrisis") || strings.Contains(lines[i], "lib/common.PanicConsensus") || strings.Contains(lines[i], "lib/common.PanicQ") {
+			i++ // and its file:line
+			continue
+		}
+		keep = append(keep, lines[i])
+	}
+	return core.PanicKey(strings.Join(keep, "\n"))
 }
 
 func skipToPanic(stack string) string {
@@ -414,3 +472,21 @@ func (rn *Runner) probes(peer *StubPeer, variant string, sess []Msg, last int, r
 }
 
 var _ = p2p.ID("")
+
+// classify strips the variable parts of an error text.
+func classify(s string) string {
+	var b strings.Builder
+	for _, r := range s {
+		switch {
+		case r >= '0' && r <= '9':
+			continue
+		case r == '\n':
+			r = ' '
+		}
+		b.WriteRune(r)
+		if b.Len() >= 70 {
+			break
+		}
+	}
+	return b.String()
+}
